@@ -1,6 +1,7 @@
 //! vharness: drives the real compiler on cases produced by TLC and records what it did
 //! as an NDJSON trace that TLC validates against the specification.
 mod drivers;
+mod notation;
 mod rsproj;
 mod run;
 mod util;
@@ -16,6 +17,8 @@ fn main() {
     let code = run::with_big_stack(move || match cmd.as_str() {
         "compile" => drivers::misc::compile(&rest),
         "project" => drivers::misc::project(&rest),
+        "genstats" => drivers::misc::genstats(&rest),
+        "c02" => drivers::c02::drive(&rest),
         "c03" => drivers::c03::drive(&rest),
         "c04" => drivers::c04::drive(&rest),
         "c05" => drivers::c05::drive(&rest),
